@@ -473,7 +473,7 @@ func specEval(o execution.Option, v interface{}) (kind, out string, absent bool)
 var (
 	optNamesGood = []string{"a", "b", "c", "opt-1", "x.y", "Z_9", "user", "image.tag", "n0", "-", "."}
 	optNamesBad  = []string{"", "a b", "é", "a$b", "a/b", "${x}", "a\n"}
-	optWordPool     = []string{"", "a", "b", "x", "foo", "bar", "v1", "1", "0", "true", "yes", "é", "日本", "a b", "a,b", "A",
+	optWordPool  = []string{"", "a", "b", "x", "foo", "bar", "v1", "1", "0", "true", "yes", "é", "日本", "a b", "a,b", "A",
 		" ", "  ", " x ", "\tx\n", " x　", "\vz\f", "​x", "x\u0085", "$", "{", "}", "${", "${a}", "${option.a}",
 		"${job.name}", "${task.x}", "$HOME", "%", "%-", "'q'", "\"", "a.b", "-"}
 	momentFormats = []string{"", "YYYY-MM-DD", "YYYY-MM-DD HH:mm:ss", "X", "x", "dddd, MMMM Do YYYY", "[at] HH:mm Z", "YY/M/D h:m:s a",
